@@ -41,6 +41,9 @@
 (*              exactly like "meth", only no reply is written at the end    *)
 (*   "get"      Properties.Get of a property of X (getter: X read lock)    *)
 (*   "set"      Properties.Set (setter, &mut self: X write lock)           *)
+(*   "getall"   Properties.GetAll of another interface at the same path     *)
+(*              with one getter (its lock is never contended and is left    *)
+(*              out; the root lock is what matters)                         *)
 (*   "intro"    Introspect of the node (reads every interface; no user     *)
 (*              code)                                                      *)
 (* Properties / Introspectable are separate interfaces that always spawn;  *)
@@ -52,7 +55,7 @@ EXTENDS Naturals, Sequences, FiniteSets, TLC
 
 CONSTANT DEVS
 AllDevs == {"props_hold_root", "intro_holds_root", "lazy_subscribe"}
-Kinds   == {"meth", "methmut", "methnr", "get", "set", "intro"}
+Kinds   == {"meth", "methmut", "methnr", "get", "set", "getall", "intro"}
 UserKinds == {"meth", "methmut", "methnr"}  \* dispatched to X itself (subject to X's spawn flag)
 NoReply(kd) == kd = "methnr"
 
@@ -163,14 +166,14 @@ DispTake ==
 (* A call on its way to the handler (executed by the dispatcher when       *)
 (* inline, else by the spawned task)                                       *)
 (***************************************************************************)
-HoldsRoot(k) == \/ (Kind(k) \in {"get", "set"} /\ "props_hold_root" \in DEVS)
+HoldsRoot(k) == \/ (Kind(k) \in {"get", "set", "getall"} /\ "props_hold_root" \in DEVS)
                 \/ (Kind(k) = "intro" /\ "intro_holds_root" \in DEVS)
 
 \* fdo handler: root.read() -- released right after the lookup, or (deviation) kept
 AcqRootR(k) ==
   /\ pc[k] = "rootR" /\ CanRead(root)
   /\ root' = IF HoldsRoot(k) THEN AddR(root, k) ELSE root
-  /\ pc' = [pc EXCEPT ![k] = "ifR"]
+  /\ pc' = [pc EXCEPT ![k] = IF Kind(k) = "getall" THEN "ready" ELSE "ifR"]
   /\ UNCHANGED <<cfg, os, sent, inbound, queue, lost, disp, pos, ifl>>
 
 \* X.read(): meth / get keep it for the handler; methmut / set only learn "needs &mut" and drop it;
